@@ -92,8 +92,8 @@ def abstract_fields(fields, npos=None, version=None):
         refs = [_orid(pos[1]), _orid(pos[2])]
         f = pos[3:]
     elif rt == "F":
-        refs = [[pos[0], ""]]
-        f = pos[1:]
+        refs = [[pos[0], ""], _orid(pos[1])]       # segment, external sequence (not a graph identifier)
+        f = pos[2:]
     elif rt == "O":
         name = pos[0]
         refs = [_orid(x) for x in pos[1].split(" ")]
@@ -313,6 +313,13 @@ def observe(gfa, pool, universe=()):
             obs[nm] = sorted(str(x) for x in getattr(gfa, nm))
         except Exception as e:
             obs[nm] = ["!" + type(e).__name__]
+    ext = []
+    try:
+        for x in sorted(str(n) for n in gfa.external_names):
+            ext.append([x, sorted(index.get(id(f), 0) for f in gfa.fragments_for_external(x))])
+    except Exception as e:
+        ext = [["!" + type(e).__name__, []]]
+    obs["ext"] = ext
     t = topology(gfa)
     obs["cc"] = t["cc"]
     obs["nd"], obs["nc"], obs["ni"], obs["nde"] = (t["n_dovetails"], t["n_containments"],
@@ -340,6 +347,7 @@ def digest(obs, pool):
          l["lf"], l["nb"], l["et"], l["ends"]] for l in ls)
     look = [[e[0]] + [pid(x) for x in e[1:]] for e in obs["look"]]
     blob = json.dumps([obs["version"], obs["qlen"], obs["hdr"], canon, look, obs["names"],
+                       [[e[0], sorted(pid(i) for i in e[1])] for e in obs.get("ext", [])],
                        obs["cc"], obs["nd"], obs["nc"], obs["ni"], obs["nde"]], sort_keys=True)
     return hashlib.md5(blob.encode()).hexdigest()[:12]
 
